@@ -74,6 +74,8 @@ type Case struct {
 	KTable *TableCase `json:"ktable,omitempty"`
 	// kernel:acc cases
 	KAcc *AccCase `json:"kacc,omitempty"`
+	// kernel:coalesce cases
+	KCo *CoCase `json:"kco,omitempty"`
 }
 
 // AccCase: one accumulator reused over a sequence of steps (Reset(arg), then the members).
